@@ -80,6 +80,21 @@ def stmt_failure(zero, a, b, idx_nm, r, fy, fx):
     pol = bu.make_polar(np.array([a, b]))
     if np.abs(bu.make_cartesian(pol) - np.array([a, b])).max() > 1e-9 * sc:
         return 'make_cartesian(make_polar(v)) != v'
+    want_pol = np.array([[np.hypot(v[0], v[1]), np.arctan2(v[0], v[1])] for v in (a, b)])
+    if np.abs(pol[:, 0] - want_pol[:, 0]).max() > 1e-9 * sc or np.abs(np.exp(1j * pol[:, 1]) - np.exp(1j * want_pol[:, 1])).max() > 1e-9:
+        return 'make_polar(v) != (|v|, angle of v): %s vs %s' % (pol.tolist(), want_pol.tolist())
+    # the dtype of the arguments must not matter: whole-pixel lattice vectors / zero given as integer arrays
+    if np.array_equal(a, np.rint(a)) and np.array_equal(b, np.rint(b)) and np.array_equal(zero, np.rint(zero)):
+        zi, ai, bi_ = zero.astype(np.int64), a.astype(np.int64), b.astype(np.int64)
+        frac = flat + 0.5
+        for nm, got, want in (('calc_coords', bu.calc_coords(zi, ai, bi_, frac), zero + frac[:, 0:1] * a + frac[:, 1:2] * b),
+                              ('Match.calc_coords', grm.Match(grm.CorrelationResult(centers=coords), selector=None, zero=zi, a=ai, b=bi_, indices=frac).calc_coords(), zero + frac[:, 0:1] * a + frac[:, 1:2] * b),
+                              ('get_indices', grm.get_indices(zero + frac[:, 0:1] * a + frac[:, 1:2] * b, zi, ai, bi_), frac)):
+            if np.abs(np.asarray(got, dtype=float) - want).max() > 1e-9 * cond * sc:
+                return '%s with integer-dtype zero/a/b and fractional indices: %s, expected %s' % (nm, np.asarray(got).tolist()[:3], want.tolist()[:3])
+        pi_ = bu.make_polar(np.array([ai, bi_]))
+        if np.abs(np.asarray(pi_, dtype=float) - pol).max() > 1e-9 * sc:
+            return 'make_polar of integer-dtype vectors %s differs from the float result %s' % (np.asarray(pi_).tolist(), pol.tolist())
     return None
 
 
